@@ -74,10 +74,17 @@ fn build(input: &str, copies: usize, k: usize, r: &mut Rng, c: &Ctxt) -> Option<
             for i in 0..copies {
                 let v = if i == k {
                     auth(&good_cred, &signed, PLACEHOLDER)
-                } else if i % 2 == 0 {
-                    auth(&good_cred, &signed, BAD_SIG)
                 } else {
-                    auth(&c.cred("AKIAOTHERKEY", t_good, &cfg.region), &signed, BAD_SIG)
+                    // the other copies: SigV4 headers that cannot verify, or headers of another scheme altogether
+                    match r.below(8) {
+                        0 | 1 => auth(&good_cred, &signed, BAD_SIG),
+                        2 => auth(&c.cred("AKIAOTHERKEY", t_good, &cfg.region), &signed, BAD_SIG),
+                        3 => "Basic Zm9vOmJhcg==".to_string(),
+                        4 => "Bearer abc.def.ghi".to_string(),
+                        5 => auth(&good_cred, &signed, PLACEHOLDER).replacen("AWS4-HMAC-SHA256", "AWS3-HMAC-SHA256", 1),
+                        6 => auth(&good_cred, &signed, PLACEHOLDER).replacen("AWS4-HMAC-SHA256", "aws4-hmac-sha256", 1),
+                        _ => String::new(),
+                    }
                 };
                 headers.push((b"authorization".to_vec(), v.into_bytes()));
             }
